@@ -57,7 +57,7 @@ func (c *Ctx) retErr(fi *ir.FnInfo, r *ssa.Return) (ssa.Value, string) {
 func runC01(c *Ctx) {
 	c.Rule("C01.O1", "E1", "kernel writes and enqueues on a Conn run with Conn.mux held; no release between the closed test and the write/queue mutation in Write/Writev/Sendfile/flush", 12)
 	c.Rule("C01.O2", "E4", "write(): after the direct kernel write every success path queues b[n:] (n the clamped syscall count) unless nothing is left; the queued path enqueues all of b and performs no kernel write; Sendfile attempts the kernel only on the empty-queue edge", 3)
-	c.Rule("C01.O3", "E7a", "every predicate over Conn.typ on the I/O path that selects ConnTypeTCP also selects ConnTypeUnix", 3)
+	c.Rule("C01.O3", "E7a", "every predicate over Conn.typ on the I/O path that selects ConnTypeTCP also selects ConnTypeUnix", 6)
 	c.Rule("C01.O4", "E4,E6", "writev(): the loop redistributing the syscall count leaves only through its index bound, and every enqueue site in it is feasible under its dominating comparisons", 1)
 	c.Rule("C01.O5", "E4", "write/writev/Sendfile: a return whose error may be nil carries the input length", 6)
 	c.Rule("C01.O6", "E2-escape", "the enqueue function only measures and copies its slice parameter (len, copy source, Append source); it never stores it", 1)
